@@ -1,6 +1,6 @@
 /-
-C19 — the render / read-back clause: for every paragraph of uniquely named fields (names of letters, digits and hyphens
-in any case; values without carriage returns, trimmed, later lines indented), the model of
+C19 — the render / read-back clause: for every paragraph of uniquely named fields (policy-legal names — printable ASCII
+without colon or space, not starting with `#` or `-` — in any case; values without carriage returns, trimmed, later lines indented), the model of
 `Debian822(Debian822(pairs).dumps()).to_dict()` is the paragraph itself under lower-cased names.
 
 The rendering is a one-paragraph well-formed document of C06's grammar, so the header-parser theorem of C06
@@ -18,7 +18,7 @@ open Py Model.Control Props.C19 Props.C06H Proofs.LinesAscii
 
 /-! ### characters of names -/
 
-def P (c : Char) : Bool := isAsciiAlnum c || c == '-'
+def P (c : Char) : Bool := 0x21 ≤ c.toNat && c.toNat ≤ 0x7e && c != ':'
 
 theorem P_table : ∀ n ∈ List.range 128, P (lowerAsciiChar (Char.ofNat n)) = P (Char.ofNat n) := by decide +kernel
 
@@ -27,13 +27,8 @@ theorem P_range : ∀ n ∈ List.range 128, P (Char.ofNat n) = true → inRange 
   decide +kernel
 
 theorem P_ascii {c : Char} (h : P c = true) : c.toNat < 128 := by
-  simp only [P, Bool.or_eq_true, beq_iff_eq] at h
-  rcases h with h | h
-  · simp only [Char.isAlphanum, Char.isAlpha, Char.isUpper, Char.isLower, Char.isDigit, Bool.or_eq_true, Bool.and_eq_true,
-      decide_eq_true_eq, UInt32.le_iff_toNat_le] at h
-    have e : c.toNat = c.val.toNat := rfl
-    rcases h with (⟨_, h⟩ | ⟨_, h⟩) | ⟨_, h⟩ <;> (simp at h; omega)
-  · subst h; decide
+  simp only [P, Bool.and_eq_true, decide_eq_true_eq] at h
+  omega
 
 theorem P_facts {c : Char} (h : P c = true) : inRange c = true ∧ c ≠ ':' ∧ isSpace c = false := by
   have hlt := P_ascii h
@@ -187,7 +182,12 @@ theorem name_facts (k : Str) (hk : nameOkR k = true) :
     let N := normalizeName (lowerAscii k)
     N ≠ [] ∧ (∀ c ∈ N, P c = true) ∧ lowerAscii N = lowerAscii k ∧ (∀ c ∈ N.head?, c ≠ '-') := by
   simp only [nameOkR, Bool.and_eq_true, List.all_eq_true] at hk
-  obtain ⟨hhead, hall⟩ := hk
+  obtain ⟨hhead, hall0⟩ := hk
+  have hall : ∀ c ∈ k, P c = true := by
+    intro c hc
+    have := hall0 c hc
+    simp only [P, Bool.and_eq_true]
+    exact this
   have hl : lowerAscii (normalizeName (lowerAscii k)) = lowerAscii k := by
     rw [normalize_eq_conventional, lowerAscii_conventional, lowerAscii_lower]
   have hkP : ∀ c ∈ k, P c = true := fun c hc => hall c hc
@@ -497,6 +497,7 @@ theorem soundR (i : InputR) : holdsOnR i (modelR i) = true := by
 
 /-- the class is inhabited: mixed-case names, a multi-line value, a value that looks like an armor line -/
 example : wfR [("Package".toList, "foo".toList), ("X-SHA1-sum".toList, "a: b\n  two\n .".toList),
-    ("dEPENDS".toList, "-----BEGIN PGP SIGNED MESSAGE-----".toList), ("empty".toList, [])] = true := by decide +kernel
+    ("dEPENDS".toList, "-----BEGIN PGP SIGNED MESSAGE-----".toList), ("empty".toList, []), ("X_Foo".toList, "v".toList),
+    ("2a.b+c/d".toList, "w".toList)] = true := by decide +kernel
 
 end Props.C19R
